@@ -6,7 +6,7 @@ from vlib.common import Hex
 
 ASPECT_THEOREMS = {
     "C01": ["ps_law_extract", "ps_law_extract_refuted", "ps_law_hashin", "ps_embed_total", "ps_refuses_clean", "ps_embed_refuses_clean",
-            "ps_begin_first_refused", "ps_hashin_no_panic", "ps_utf16_refused_refuted", "ps_sign_then_verify",
+            "ps_begin_first_refused", "ps_hashin_no_panic", "ps_extract_no_panic", "ps_utf16_refused_refuted", "ps_sign_then_verify",
             "deb_law_extract", "deb_law_extract_refuted", "deb_law_hashin", "deb_embed_total", "deb_refuses_clean", "deb_embed_refuses_clean",
             "deb_refuses_clean_refuted", "deb_verifier_accepts_signed", "deb_sign_then_verify"],
     "C08": ["ps_law_hashin", "ps_is_signed_spec", "ps_signed_after_embed", "ps_dom_preserved", "ps_resign_history",
